@@ -165,10 +165,10 @@ def audit_axioms(prop, native_ok=(), files=None):
         out += out1 + "\n"; rc = rc or rc1
     per = {}; problems = []
     text = out.replace("\n  ", " ").replace("\n ", " ")
-    for m in re.finditer(r"'([^']+)' depends on axioms: \[([^\]]*)\]", text, flags=re.S):
+    for m in re.finditer(r"'(\S+)' depends on axioms: \[([^\]]*)\]", text, flags=re.S):
         axs = [a.strip() for a in m.group(2).replace("\n", " ").split(",") if a.strip()]
         per[m.group(1)] = axs
-    for m in re.finditer(r"'([^']+)' does not depend on any axioms", text):
+    for m in re.finditer(r"'(\S+)' does not depend on any axioms", text):
         per[m.group(1)] = []
     if rc != 0:
         problems.append("audit module failed to elaborate: " + out[-400:])
